@@ -30,6 +30,8 @@ pub struct FileState {
     path: String,
     persister: Arc<PersisterKind>,
     encryptor: Option<Arc<EncryptorKind>>,
+    // Serializes apply(): entries must reach the file in index order.
+    append_lock: tokio::sync::Mutex<()>,
 }
 
 impl FileState {
@@ -48,6 +50,7 @@ impl FileState {
             persister,
             encryptor,
             version: version.get_numeric_version().expect("Invalid version"),
+            append_lock: tokio::sync::Mutex::new(()),
         }
     }
 
@@ -305,11 +308,14 @@ impl State for FileState {
 
     async fn apply(&self, user_id: u32, command: EntryCommand) -> Result<(), IggyError> {
         debug!("Applying state entry with command: {command}, user ID: {user_id}");
+        // Commands journalled under the shared system lock (purge) run concurrently: allocate the
+        // index and append under one lock, and consume the index only once the entry is written.
+        let _append_guard = self.append_lock.lock().await;
         let timestamp = IggyTimestamp::now();
         let index = if self.entries_count.load(Ordering::SeqCst) == 0 {
             0
         } else {
-            self.current_index.fetch_add(1, Ordering::SeqCst) + 1
+            self.current_index.load(Ordering::SeqCst) + 1
         };
         let term = self.term.load(Ordering::SeqCst);
         let current_leader = self.current_leader.load(Ordering::SeqCst);
@@ -363,7 +369,6 @@ impl State for FileState {
             command,
         );
         let bytes = entry.to_bytes();
-        self.entries_count.fetch_add(1, Ordering::SeqCst);
         self.persister
             .append(&self.path, &bytes)
             .await
@@ -374,6 +379,8 @@ impl State for FileState {
                     bytes.len()
                 )
             })?;
+        self.current_index.store(index, Ordering::SeqCst);
+        self.entries_count.fetch_add(1, Ordering::SeqCst);
         debug!("Applied state entry: {entry}");
         Ok(())
     }
